@@ -8,6 +8,7 @@ import (
 	"go/constant"
 	"go/token"
 	"go/types"
+	"regexp"
 	"sort"
 	"strings"
 
@@ -21,6 +22,8 @@ type Canon struct {
 	PhiEdge func(*ssa.Phi) ssa.Value
 	memo    map[ssa.Value]string
 	busy    map[ssa.Value]bool
+	// inlining: depth of expression-helper expansion (bounded)
+	inlining int
 }
 
 func NewCanon(w *World) *Canon {
@@ -53,6 +56,50 @@ func singleStore(a *ssa.Alloc) ssa.Value {
 }
 
 // isPureGetter reports whether fn's body is `return recv.field` (possibly through a load).
+var canonParamTok = regexp.MustCompile(`\bP(\d+)\b`)
+
+// isExprHelper: one basic block, one result of basic type, no effects, at least one parameter, not a plain getter.
+func isExprHelper(fn *ssa.Function) bool {
+	// receiver-only methods with a string result: the "path getter" idiom (p.lockPath()); anything wider would rename
+	// helpers the rules know by name (normalize, count, Len)
+	if fn == nil || len(fn.Blocks) != 1 || len(fn.Params) != 1 || fn.Signature.Recv() == nil || fn.Signature.Results().Len() != 1 {
+		return false
+	}
+	if b, ok := fn.Signature.Results().At(0).Type().Underlying().(*types.Basic); !ok || b.Kind() != types.String {
+		return false
+	}
+	ins := fn.Blocks[0].Instrs
+	if len(ins) > 16 {
+		return false
+	}
+	for _, in := range ins {
+		switch x := in.(type) {
+		case *ssa.FieldAddr, *ssa.Field, *ssa.IndexAddr, *ssa.Index, *ssa.BinOp, *ssa.Convert, *ssa.ChangeType, *ssa.DebugRef, *ssa.Slice, *ssa.Return, *ssa.Alloc:
+		case *ssa.UnOp:
+		case *ssa.Store:
+			// only the argument array of a variadic call
+			ia, ok := x.Addr.(*ssa.IndexAddr)
+			if !ok {
+				return false
+			}
+			if a, ok := ia.X.(*ssa.Alloc); !ok || a.Comment != "varargs" {
+				return false
+			}
+		case *ssa.Call:
+			// calls to other packages' functions only (path joins, conversions); comet calls stay opaque
+			if g := staticCallee(x.Common()); g == nil || g.Pkg == fn.Pkg {
+				if _, isB := x.Call.Value.(*ssa.Builtin); !isB {
+					return false
+				}
+			}
+		default:
+			return false
+		}
+	}
+	_, ok := ins[len(ins)-1].(*ssa.Return)
+	return ok
+}
+
 func isPureGetter(fn *ssa.Function) (string, bool) {
 	if fn == nil || len(fn.Blocks) != 1 || len(fn.Params) != 1 {
 		return "", false
@@ -91,7 +138,7 @@ func fieldName(t types.Type, i int) string {
 		t = p.Elem()
 	}
 	if s, ok := t.Underlying().(*types.Struct); ok && i < s.NumFields() {
-		return s.Field(i).Name()
+		return roleFieldName(t, s.Field(i).Name())
 	}
 	return fmt.Sprintf("f%d", i)
 }
@@ -105,6 +152,9 @@ func calleeName(c *ssa.CallCommon) string {
 	}
 	switch f := c.Value.(type) {
 	case *ssa.Function:
+		if a, ok := fnAlias[f]; ok {
+			return aliasFull(a)
+		}
 		if o := f.Origin(); o != nil {
 			return o.String() // generic instantiation: name of the generic function
 		}
@@ -112,6 +162,11 @@ func calleeName(c *ssa.CallCommon) string {
 	case *ssa.Builtin:
 		return "builtin:" + f.Name()
 	case *ssa.MakeClosure:
+		if fn, ok := f.Fn.(*ssa.Function); ok {
+			if a, ok := fnAlias[fn]; ok {
+				return aliasFull(a)
+			}
+		}
 		return f.Fn.String()
 	}
 	return "dynamic"
@@ -394,6 +449,25 @@ func (c *Canon) call(cc *ssa.CallCommon, v ssa.Value) string {
 	if fn := staticCallee(cc); fn != nil && fn.Pkg == c.W.SPkg {
 		if f, ok := isPureGetter(fn); ok {
 			return "get:" + f + "(" + c.S(cc.Args[0]) + ")"
+		}
+		// a straight-line expression helper with a scalar / string result (p.lockPath() = Join(p.baseDir, "LOCK")) is
+		// named by the expression it returns, so that spelling it inline or through the helper makes no difference
+		if isExprHelper(fn) && c.inlining < 3 {
+			var args []string
+			for _, a := range cc.Args {
+				args = append(args, c.S(a))
+			}
+			sub := NewCanon(c.W)
+			sub.inlining = c.inlining + 1
+			body := sub.S(fn.Blocks[0].Instrs[len(fn.Blocks[0].Instrs)-1].(*ssa.Return).Results[0])
+			return canonParamTok.ReplaceAllStringFunc(body, func(m string) string {
+				n := 0
+				fmt.Sscanf(m, "P%d", &n)
+				if n < len(args) {
+					return args[n]
+				}
+				return m
+			})
 		}
 	}
 	var args []string
